@@ -310,6 +310,11 @@ Definition empty_store (base : N) : store := {| sto_base := base; sto_committed 
 Section WithHash.
   Variable H : bytes -> N.
   Variable D : nat.      (* depth of the sparse Merkle index; 256 in the code *)
+  (* external_action_empty_hashes(): the code computes this table once (OnceLock).  It is a
+     Section variable so that execution can pass the precomputed table; every theorem that
+     depends on its contents assumes [EH = empty_table D] (defined below), the others hold for
+     any table. *)
+  Variable EH : list N.
 
   Definition H32 (l : bytes) : N := N.land (H l) mask256.
 
@@ -453,7 +458,7 @@ Section WithHash.
     end.
 
   Definition plan_entry (idx : index) (e : entry) : N * list (path * N) :=
-    plan_path (ix_nodes idx) (empty_table D) [] (bits D (rq_id (e_request e))) (leaf_hash e).
+    plan_path (ix_nodes idx) EH [] (bits D (rq_id (e_request e))) (leaf_hash e).
 
   Definition apply_updates (nodes : list (path * N)) (ups : list (path * N)) : list (path * N) :=
     fold_left (fun m kv => set path_cmp (fst kv) (snd kv) m) ups nodes.
@@ -467,7 +472,7 @@ Section WithHash.
     apply_mutation idx e (snd (plan_entry idx e)).
 
   Definition root_digest (idx : index) : N :=
-    node_val (hd 0 (empty_table D)) (ix_nodes idx) [].
+    node_val (hd 0 EH) (ix_nodes idx) [].
 
   Definition get (idx : index) (id : N) : option entry := find N.compare id (ix_entries idx).
 
@@ -1095,12 +1100,13 @@ Definition render_cout (o : cout) : N * list N * option err :=
 
 (* the instance that is executed against the implementation *)
 Definition DEPTH : nat := 256.
+Definition EH256 : list N := Eval vm_compute in empty_table B3.hash DEPTH DEPTH.
 (* per-op outputs, then recover(store) of both systems at the end of the run, observed like a
    live system (a failed recovery shows the live coordinator) *)
 Definition crun256 (cops : list cop) :=
-  let '(outs, cs) := crun B3.hash DEPTH cops in
+  let '(outs, cs) := crun B3.hash DEPTH EH256 cops in
   (map (fun x => (render_cout (fst x), snd x)) outs,
-   map (fun s => match recover B3.hash DEPTH (sy_store s) with
-                 | Ok co => (None, observe_sys B3.hash DEPTH {| sy_store := sy_store s; sy_coord := co |})
-                 | Err e => (Some e, observe_sys B3.hash DEPTH s)
+   map (fun s => match recover B3.hash DEPTH EH256 (sy_store s) with
+                 | Ok co => (None, observe_sys EH256 {| sy_store := sy_store s; sy_coord := co |})
+                 | Err e => (Some e, observe_sys EH256 s)
                  end) [cs_a cs; cs_b cs]).
